@@ -96,7 +96,7 @@ def judge(ctx, case):
         b = a
     A, B = ec.mul_g(a), ec.mul_g(b)
     pubB = ec.ser(B, case["cb"] if mode != "self" else case["ca"])
-    req = {"op": "ecies_enc", "mode": mode, "msg": case["msg"], "pub": pubB.hex(), "key": case["a"], "compressed": case["ca"], "exclude": exclude, "recipient_key": "%064x" % b}
+    req = {"op": "ecies_enc", "mode": mode, "msg": case["msg"], "pub": pubB.hex(), "key": case["a"], "compressed": case["ca"], "exclude": exclude, "recipient_key": "%064x" % b, "wrong_key": case["other"]}
     e = ctx.call(req)
     ctx.ev()
     if "ok" not in e:
@@ -119,6 +119,15 @@ def judge(ctx, case):
     ctx.ev()
     if o.get("direct_decrypt", {}).get("ok") != case["msg"]:
         ctx.viol("decrypt(encrypt(m)) != m before serialisation (%s)" % mode, {"resp": str(o.get("direct_decrypt"))[:200]})
+    # the in-memory ciphertext object (never serialised) must not decrypt under a wrong recipient or sender key either
+    for fld, what in (("direct_decrypt_wrong_recipient", "a wrong recipient key"), ("direct_decrypt_wrong_recipient_via_key", "a wrong recipient key (PrivateKey::decrypt_message)"), ("direct_decrypt_wrong_sender", "a wrong sender key")):
+        if fld in o and int(case["other"], 16) not in (a, b):
+            if fld == "direct_decrypt_wrong_sender" and mode == "ephemeral":
+                continue
+            ctx.ev()
+            ctx.hit("wrong_key_in_memory")
+            if "ok" in o[fld]:
+                ctx.viol("decrypting the in-memory ciphertext object with %s returns plaintext" % what, {"mode": mode})
     has_pub = not exclude
     sender_pub = ec.ser(A, True).hex() if exclude else None
     for via_key in (False, True):
